@@ -273,3 +273,56 @@ def design_fids(program, bid):
 def names_to_key(sample, names):
     """Canonical hashable form of a returned experiment restricted to the given factor names."""
     return tuple(tuple(sample[n]) for n in names)
+
+
+def synthesize_isolated(program, n, strategy_name, timeout=120):
+    """Build the program and run the strategy in a forked child (the uniform
+    samplers' C libraries may terminate the process, e.g. on an unsatisfiable
+    formula).  Returns ("ok", samples) | ("error", Exc, msg) | ("crash", code, "")."""
+    import pickle
+    import select
+    import signal
+    rfd, wfd = os.pipe()
+    pid = os.fork()
+    if pid == 0:
+        try:
+            os.close(rfd)
+            devnull = os.open(os.devnull, os.O_WRONLY)
+            os.dup2(devnull, 1)
+            os.dup2(devnull, 2)
+            b = build(program)
+            blk = main_block(b, program)
+            if blk is None:
+                out = ("error", "BuildError", repr(b.errors)[:200])
+            else:
+                out = synthesize(blk, n, strategy_name)
+                if out[0] == "ok":
+                    out = ("ok", [{str(k): list(v) for k, v in s.items()} for s in out[1]])
+            data = pickle.dumps(out)
+            with os.fdopen(wfd, "wb") as w:
+                w.write(data)
+        finally:
+            os._exit(0)
+    os.close(wfd)
+    chunks = []
+    import time as _t
+    t0 = _t.time()
+    with os.fdopen(rfd, "rb") as r:
+        while True:
+            ready, _, _ = select.select([r], [], [], 1.0)
+            if ready:
+                c = r.read()
+                if c:
+                    chunks.append(c)
+                break
+            if _t.time() - t0 > timeout:
+                os.kill(pid, signal.SIGKILL)
+                break
+    _, status = os.waitpid(pid, 0)
+    data = b"".join(chunks)
+    if not data:
+        return ("crash", status, "")
+    try:
+        return pickle.loads(data)
+    except Exception:  # noqa
+        return ("crash", status, "unreadable result")
